@@ -26,6 +26,10 @@ func Simplify(n Node) bool {
 
 type simplifier struct {
 	modified bool
+
+	// dblQuoted holds the words found within double quotes, like the
+	// default value in "${a:-"b"}", where single quotes are not special.
+	dblQuoted map[*Word]bool
 }
 
 func (s *simplifier) visit(node Node) {
@@ -62,8 +66,23 @@ func (s *simplifier) visit(node Node) {
 		node.Stmts = s.inlineSubshell(node.Stmts)
 	case *Subshell:
 		node.Stmts = s.inlineSubshell(node.Stmts)
+	case *DblQuoted:
+		Walk(node, func(n Node) bool {
+			if _, ok := n.(*CmdSubst); ok {
+				return false // quoting starts afresh within "$(...)"
+			}
+			if w, ok := n.(*Word); ok {
+				if s.dblQuoted == nil {
+					s.dblQuoted = make(map[*Word]bool)
+				}
+				s.dblQuoted[w] = true
+			}
+			return true
+		})
 	case *Word:
-		node.Parts = s.simplifyWord(node.Parts)
+		if !s.dblQuoted[node] {
+			node.Parts = s.simplifyWord(node.Parts)
+		}
 	case *TestClause:
 		node.X = s.removeParensTest(node.X)
 		node.X = s.removeNegateTest(node.X)
